@@ -144,6 +144,7 @@ func verifSigMatch(pattern, sig string) bool {
 func (r *verifReport) finish() int {
 	known := verifLoadKnown()
 	exit := 0
+	engineErr := false
 	nviol := 0
 	sort.Slice(r.Violations, func(i, j int) bool { return r.Violations[i].Sig < r.Violations[j].Sig })
 	var knownSeen []string
@@ -181,7 +182,8 @@ func (r *verifReport) finish() int {
 			}
 			if !ok {
 				fmt.Fprintf(os.Stderr, "ENGINE-ERROR: finding %s did not reproduce on replay: %s\n", v.Sig, v.Detail)
-				return 2
+				engineErr = true
+				continue
 			}
 		}
 		if v.Case != "" {
@@ -214,6 +216,9 @@ func (r *verifReport) finish() int {
 		fmt.Printf("VIOLATION property=%s replay=%s\n", r.Prop, file)
 	}
 	r.writeEvidence(nviol, knownSeen)
+	if engineErr && exit == 0 {
+		return 2 // a finding that does not reproduce is a broken check, not a violation
+	}
 	return exit
 }
 
@@ -356,6 +361,9 @@ func VerifMain(args []string) int {
 	switch args[0] {
 	case "c13worker":
 		return verifC13Worker(args[1:])
+	case "c20race":
+		seed, _ := strconv.ParseInt(args[1], 10, 64)
+		return verifC20RaceMain(seed)
 	case "check":
 		prop := args[1]
 		tier := "quick"
